@@ -9,6 +9,13 @@
 //! impls, `insert_quad`/`remove_quad`/`insert_triple`/`remove_triple` with every shipped quad/triple shape, bulk operations
 //! on failing sources, `usize` as index type, and `SimpleTermIndex` used directly through `TermIndex`/`GraphNameIndex`
 //! (every twentieth case, checked by `ti_case_ok`).
+//!
+//! Matchers reach the store in two ways: wrapped in the harness enums `TMK`/`GMK` (any mix of shipped matcher types in one
+//! call, but the store sees one type that forwards `matches`/`constant` only), or `direct`: the position(s) named by
+//! `QM::direct` hand over the shipped type itself (`[T; N]`, `&[T]`, `Option<T>`, `Any`, `TermKind`, `Not<_>`, `dyn Fn`,
+//! `DatatypeMatcher`, `LanguageTagMatcher`, `(S, P, O)`, `TermMatcherGn<_>`, ...), so that anything a store derives from
+//! the static type of a matcher is exercised (store types without capacity limit; see `direct_d!`/`direct_g!`). Every
+//! tenth case is a directed history about enumeration matchers (`gen_directed_enum`).
 use sophia_api::dataset::{CollectibleDataset, DTerm};
 use sophia_api::graph::{CollectibleGraph, GTerm};
 use sophia_api::prelude::*;
@@ -387,7 +394,88 @@ fn gmk_kind(m: &GMK) -> &'static str {
 }
 
 // ---------- operations and outputs ----------
-struct QM { s: TMatch, p: TMatch, o: TMatch, g: GMatch }
+/// `direct`: which position hands its REAL sophia matcher (the shipped type itself: `[T; N]`, `&[T]`, `Option<T>`, `Any`,
+/// `TermKind`, `Not<_>`, a closure, ...) to the store, instead of the harness enum `TMK`/`GMK` (which forwards `matches` and
+/// `constant` only, so that whatever else a store may learn from the static type of a matcher stays hidden behind it):
+/// 0 none, 1 subject, 2 predicate, 3 object, 4 graph name, 5 every position (all of them in the family `fam_t`/`fam_g`:
+/// `Any`, `[T; 2]`, `&[T]`)
+struct QM { s: TMatch, p: TMatch, o: TMatch, g: GMatch, direct: u8 }
+fn fam_t(m: &TMK) -> bool { matches!(m, TMK::Any(_) | TMK::Arr2(_) | TMK::Slice(_)) }
+fn fam_g(m: &GMK) -> bool { matches!(m, GMK::Any(_) | GMK::Arr2(_) | GMK::Slice(_)) }
+impl QM {
+    fn all_fam(&self, isgraph: bool) -> bool { fam_t(&self.s.m) && fam_t(&self.p.m) && fam_t(&self.o.m) && (isgraph || fam_g(&self.g.m)) }
+    /// draws how the matchers reach the store
+    fn draw_direct(&mut self, r: &mut Rng, isgraph: bool) {
+        self.direct = match r.below(8) {
+            0..=2 => 0,
+            3 | 4 if self.all_fam(isgraph) => 5,
+            _ => 1 + r.below(if isgraph { 3 } else { 4 }) as u8,
+        };
+    }
+}
+/// evaluates `$body` with `$x` bound to the real sophia matcher held by the `&TMK` `$m` (by value where the type can be
+/// cloned, otherwise behind `matcher_ref()`)
+macro_rules! with_real_t { ($m:expr, |$x:ident| $body:expr) => { match $m {
+    TMK::Any(m) => { let $x = *m; $body }
+    TMK::Opt(m) => { let $x = m.clone(); $body }
+    TMK::Arr1(m) => { let $x = m.clone(); $body }
+    TMK::Arr2(m) => { let $x = m.clone(); $body }
+    TMK::Arr3(m) => { let $x = m.clone(); $body }
+    TMK::Slice(m) => { let $x: &[ST] = *m; $body }
+    TMK::Kind(m) => { let $x = *m; $body }
+    TMK::NotArr1(m) => { let $x = Not(m.0.clone()); $body }
+    TMK::NotArr2(m) => { let $x = Not(m.0.clone()); $body }
+    TMK::NotKind(m) => { let $x = Not(m.0); $body }
+    TMK::NotM(m) => { let $x = (**m).matcher_ref(); $body }
+    TMK::Closure(m) => { let $x = (**m).matcher_ref(); $body }
+    TMK::Datatype(m) => { let $x = m.clone(); $body }
+    TMK::Lang(m) => { let $x = m.clone(); $body }
+    TMK::Triple3(m) => { let $x = (**m).matcher_ref(); $body }
+    TMK::Custom(m) => { let $x = m.matcher_ref(); $body }
+} }; }
+macro_rules! with_real_g { ($m:expr, |$x:ident| $body:expr) => { match $m {
+    GMK::Any(m) => { let $x = *m; $body }
+    GMK::Opt(m) => { let $x = m.clone(); $body }
+    GMK::Arr1(m) => { let $x = m.clone(); $body }
+    GMK::Arr2(m) => { let $x = m.clone(); $body }
+    GMK::Slice(m) => { let $x: &[GraphName<ST>] = *m; $body }
+    GMK::Kind(m) => { let $x = *m; $body }
+    GMK::Gn(m) => { let $x = m.matcher_ref(); $body }
+    GMK::Not(m) => { let $x = (**m).matcher_ref(); $body }
+    GMK::Closure(m) => { let $x = (**m).matcher_ref(); $body }
+    GMK::OptTriple(m) => { let $x = m.matcher_ref(); $body }
+    GMK::Custom(m) => { let $x = m.matcher_ref(); $body }
+} }; }
+/// the same for the family of `direct == 5`
+macro_rules! with_fam_t { ($m:expr, |$x:ident| $body:expr) => { match $m {
+    TMK::Any(m) => { let $x = *m; $body }
+    TMK::Arr2(m) => { let $x = m.clone(); $body }
+    TMK::Slice(m) => { let $x: &[ST] = *m; $body }
+    _ => unreachable!("direct == 5 with a matcher outside the family"),
+} }; }
+macro_rules! with_fam_g { ($m:expr, |$x:ident| $body:expr) => { match $m {
+    GMK::Any(m) => { let $x = *m; $body }
+    GMK::Arr2(m) => { let $x = m.clone(); $body }
+    GMK::Slice(m) => { let $x: &[GraphName<ST>] = *m; $body }
+    _ => unreachable!("direct == 5 with a graph-name matcher outside the family"),
+} }; }
+/// `$call!(s, p, o, g)` with the matchers of the `&QM` `$m` bound as its `direct` field says (dataset flavour)
+macro_rules! dispatch_d { ($m:expr, |$s:ident, $p:ident, $o:ident, $g:ident| $body:expr) => { match $m.direct {
+    1 => { let ($p, $o, $g) = ($m.p.m.matcher_ref(), $m.o.m.matcher_ref(), $m.g.m.matcher_ref()); with_real_t!(&$m.s.m, |$s| $body) }
+    2 => { let ($s, $o, $g) = ($m.s.m.matcher_ref(), $m.o.m.matcher_ref(), $m.g.m.matcher_ref()); with_real_t!(&$m.p.m, |$p| $body) }
+    3 => { let ($s, $p, $g) = ($m.s.m.matcher_ref(), $m.p.m.matcher_ref(), $m.g.m.matcher_ref()); with_real_t!(&$m.o.m, |$o| $body) }
+    4 => { let ($s, $p, $o) = ($m.s.m.matcher_ref(), $m.p.m.matcher_ref(), $m.o.m.matcher_ref()); with_real_g!(&$m.g.m, |$g| $body) }
+    5 => with_fam_t!(&$m.s.m, |$s| with_fam_t!(&$m.p.m, |$p| with_fam_t!(&$m.o.m, |$o| with_fam_g!(&$m.g.m, |$g| $body)))),
+    _ => { let ($s, $p, $o, $g) = ($m.s.m.matcher_ref(), $m.p.m.matcher_ref(), $m.o.m.matcher_ref(), $m.g.m.matcher_ref()); $body }
+} }; }
+/// graph flavour
+macro_rules! dispatch_g { ($m:expr, |$s:ident, $p:ident, $o:ident| $body:expr) => { match $m.direct {
+    1 => { let ($p, $o) = ($m.p.m.matcher_ref(), $m.o.m.matcher_ref()); with_real_t!(&$m.s.m, |$s| $body) }
+    2 => { let ($s, $o) = ($m.s.m.matcher_ref(), $m.o.m.matcher_ref()); with_real_t!(&$m.p.m, |$p| $body) }
+    3 => { let ($s, $p) = ($m.s.m.matcher_ref(), $m.p.m.matcher_ref()); with_real_t!(&$m.o.m, |$o| $body) }
+    5 => with_fam_t!(&$m.s.m, |$s| with_fam_t!(&$m.p.m, |$p| with_fam_t!(&$m.o.m, |$o| $body))),
+    _ => { let ($s, $p, $o) = ($m.s.m.matcher_ref(), $m.p.m.matcher_ref(), $m.o.m.matcher_ref()); $body }
+} }; }
 #[derive(Clone, Copy, Debug, PartialEq)]
 enum EK { Subjects, Predicates, Objects, GraphNames, Blank, Iris, Literals, Variables, Quoted }
 enum Op {
@@ -410,8 +498,9 @@ impl Op { fn is_base(&self) -> bool { !matches!(self, Op::Clone { .. } | Op::Col
 enum Out { Flag(bool), Count(u64), Err, Unit, Quads(Vec<Q4>), Terms(Vec<Tid>), Unexpected(String) }
 
 fn qm_text(q: &QM, isgraph: bool) -> String {
-    if isgraph { format!("s={{{} => {:?}}} p={{{} => {:?}}} o={{{} => {:?}}}", q.s.label, q.s.d, q.p.label, q.p.d, q.o.label, q.o.d) }
-    else { format!("s={{{} => {:?}}} p={{{} => {:?}}} o={{{} => {:?}}} g={{{} => {:?}}}", q.s.label, q.s.d, q.p.label, q.p.d, q.o.label, q.o.d, q.g.label, q.g.d) }
+    let how = ["", " direct=s", " direct=p", " direct=o", " direct=g", " direct=all"][q.direct as usize];
+    (if isgraph { format!("s={{{} => {:?}}} p={{{} => {:?}}} o={{{} => {:?}}}", q.s.label, q.s.d, q.p.label, q.p.d, q.o.label, q.o.d) }
+    else { format!("s={{{} => {:?}}} p={{{} => {:?}}} o={{{} => {:?}}} g={{{} => {:?}}}", q.s.label, q.s.d, q.p.label, q.p.d, q.o.label, q.o.d, q.g.label, q.g.d) }) + how
 }
 fn op_name(o: &Op) -> &'static str {
     match o { Op::Insert(_) => "Insert", Op::Remove(_) => "Remove", Op::Contains(_) => "Contains", Op::Query(_) => "Query", Op::All => "All", Op::RemoveMatching(_) => "RemoveMatching",
@@ -459,29 +548,67 @@ trait ProbeD: MutableDataset + CollectibleDataset + Clone + Default {
     /// the same query / enumeration through the `[Q]` slice implementation (vector stores)
     fn slice_query(&self, _c: &Ctx, _m: &QM) -> Option<Out> { None }
     fn slice_all(&self, _c: &Ctx) -> Option<Out> { None }
+    /// query / remove_matching / retain_matching with the matchers bound as `m.direct` says (store types of `direct_d!`)
+    fn direct_op(&mut self, _c: &Ctx, _op: &Op, _via: usize) -> Option<Out> { None }
 }
 trait ProbeG: MutableGraph + CollectibleGraph + Clone + Default {
     fn fresh(_alt: bool) -> Self { Self::default() }
     fn term_count(&self) -> Option<(usize, bool)> { None }
     fn slice_query(&self, _c: &Ctx, _m: &QM) -> Option<Out> { None }
     fn slice_all(&self, _c: &Ctx) -> Option<Out> { None }
+    fn direct_op(&mut self, _c: &Ctx, _op: &Op, _via: usize) -> Option<Out> { None }
 }
-macro_rules! inmem_probe { ($tr:ident, $($ty:ident)::+) => {
-    impl<I: Index + Default> $tr for $($ty)::+<SimpleTermIndex<I>> {
+/// the body of `ProbeD::direct_op` / `ProbeG::direct_op`; `via` 1: the query goes through `&Self`
+macro_rules! direct_d { () => {
+    fn direct_op(&mut self, c: &Ctx, op: &Op, via: usize) -> Option<Out> {
+        Some(match op {
+            Op::Query(m) => if via == 1 { let d = &&*self; dispatch_d!(m, |sm, pm, om, gm| collect_quads!(c, d.quads_matching(sm, pm, om, gm))) }
+                else { dispatch_d!(m, |sm, pm, om, gm| collect_quads!(c, self.quads_matching(sm, pm, om, gm))) },
+            Op::RemoveMatching(m) => match dispatch_d!(m, |sm, pm, om, gm| self.remove_matching(sm, pm, om, gm)) { Ok(n) => Out::Count(n as u64), Err(e) => Out::Unexpected(format!("{e:?}")) },
+            Op::RetainMatching(m) => match dispatch_d!(m, |sm, pm, om, gm| self.retain_matching(sm, pm, om, gm)) { Ok(()) => Out::Unit, Err(e) => Out::Unexpected(format!("{e:?}")) },
+            _ => return None,
+        })
+    }
+}; }
+macro_rules! direct_g { () => {
+    fn direct_op(&mut self, c: &Ctx, op: &Op, via: usize) -> Option<Out> {
+        Some(match op {
+            Op::Query(m) => if via == 1 { let d = &&*self; dispatch_g!(m, |sm, pm, om| collect_triples!(c, d.triples_matching(sm, pm, om))) }
+                else { dispatch_g!(m, |sm, pm, om| collect_triples!(c, self.triples_matching(sm, pm, om))) },
+            Op::RemoveMatching(m) => match dispatch_g!(m, |sm, pm, om| self.remove_matching(sm, pm, om)) { Ok(n) => Out::Count(n as u64), Err(e) => Out::Unexpected(format!("{e:?}")) },
+            Op::RetainMatching(m) => match dispatch_g!(m, |sm, pm, om| self.retain_matching(sm, pm, om)) { Ok(()) => Out::Unit, Err(e) => Out::Unexpected(format!("{e:?}")) },
+            _ => return None,
+        })
+    }
+}; }
+macro_rules! inmem_probe { ($tr:ident, $direct:ident, $($ty:ident)::+) => {
+    inmem_probe!(@one $tr, $direct, u32, $($ty)::+);
+    inmem_probe!(@one $tr, $direct, u16, $($ty)::+);
+    inmem_probe!(@one $tr, $direct, usize, $($ty)::+);
+    // the capacity-limited index types: without the direct hook (the code of a store is generic in the index type, and the
+    // build time of this file is proportional to the number of (store type, matcher type) pairs)
+    impl<const M: u8> $tr for $($ty)::+<SimpleTermIndex<SmallIdx<M>>> {
         fn fresh(alt: bool) -> Self { if alt { Self::new() } else { Self::default() } }
         fn term_count(&self) -> Option<(usize, bool)> { let t = self.verif_term_index(); Some((t.len(), t.is_empty())) }
     }
+};
+(@one $tr:ident, $direct:ident, $i:ty, $($ty:ident)::+) => {
+    impl $tr for $($ty)::+<SimpleTermIndex<$i>> {
+        fn fresh(alt: bool) -> Self { if alt { Self::new() } else { Self::default() } }
+        fn term_count(&self) -> Option<(usize, bool)> { let t = self.verif_term_index(); Some((t.len(), t.is_empty())) }
+        $direct!();
+    }
 }; }
-inmem_probe!(ProbeD, sophia_inmem::dataset::GenericFastDataset);
-inmem_probe!(ProbeD, sophia_inmem::dataset::GenericLightDataset);
-inmem_probe!(ProbeG, sophia_inmem::graph::GenericFastGraph);
-inmem_probe!(ProbeG, sophia_inmem::graph::GenericLightGraph);
-impl ProbeD for HashSet<Spog<ST>> {}
-impl ProbeD for BTreeSet<Spog<ST>> {}
-impl ProbeD for HashSet<Gspo<ST>> {}
-impl ProbeD for BTreeSet<Gspo<ST>> {}
-impl ProbeG for HashSet<[ST; 3]> {}
-impl ProbeG for BTreeSet<[ST; 3]> {}
+inmem_probe!(ProbeD, direct_d, sophia_inmem::dataset::GenericFastDataset);
+inmem_probe!(ProbeD, direct_d, sophia_inmem::dataset::GenericLightDataset);
+inmem_probe!(ProbeG, direct_g, sophia_inmem::graph::GenericFastGraph);
+inmem_probe!(ProbeG, direct_g, sophia_inmem::graph::GenericLightGraph);
+impl ProbeD for HashSet<Spog<ST>> { direct_d!(); }
+impl ProbeD for BTreeSet<Spog<ST>> { direct_d!(); }
+impl ProbeD for HashSet<Gspo<ST>> { direct_d!(); }
+impl ProbeD for BTreeSet<Gspo<ST>> { direct_d!(); }
+impl ProbeG for HashSet<[ST; 3]> { direct_g!(); }
+impl ProbeG for BTreeSet<[ST; 3]> { direct_g!(); }
 macro_rules! vec_probe_d { ($q:ty) => {
     impl ProbeD for Vec<$q> {
         fn slice_query(&self, c: &Ctx, m: &QM) -> Option<Out> {
@@ -489,6 +616,7 @@ macro_rules! vec_probe_d { ($q:ty) => {
             Some(collect_quads!(c, sl.quads_matching(m.s.m.matcher_ref(), m.p.m.matcher_ref(), m.o.m.matcher_ref(), m.g.m.matcher_ref())))
         }
         fn slice_all(&self, c: &Ctx) -> Option<Out> { let sl: &[$q] = &self[..]; Some(collect_quads!(c, sl.quads())) }
+        direct_d!();
     }
 }; }
 vec_probe_d!(Spog<ST>);
@@ -499,6 +627,7 @@ impl ProbeG for Vec<[ST; 3]> {
         Some(collect_triples!(c, sl.triples_matching(m.s.m.matcher_ref(), m.p.m.matcher_ref(), m.o.m.matcher_ref())))
     }
     fn slice_all(&self, c: &Ctx) -> Option<Out> { let sl: &[[ST; 3]] = &self[..]; Some(collect_triples!(c, sl.triples())) }
+    direct_g!();
 }
 
 /// a source that yields the items, then fails
@@ -596,13 +725,16 @@ where D: ProbeD, D::Error: std::fmt::Debug + std::error::Error, D::MutationError
         let o = match op {
             Op::Contains(_) | Op::Query(_) | Op::All | Op::Enum(_) => {
                 let sl = if via == 1 && r.chance(1, 2) { match op { Op::Query(m) => d.slice_query(c, m), Op::All => d.slice_all(c), _ => None } } else { None };
+                let sl = match (sl, op) { (None, Op::Query(m)) if m.direct != 0 => d.direct_op(c, op, via), (sl, _) => sl };
                 match sl {
                     Some(o) => o,
                     None => match via { 0 => ds_read(c, &d, op, r), 1 => ds_read(c, &&d, op, r), _ => { let m = &mut d; ds_read(c, &m, op, r) } },
                 }
             }
-            Op::Insert(_) | Op::Remove(_) | Op::RemoveMatching(_) | Op::RetainMatching(_) | Op::InsertAll(_) | Op::RemoveAll(_) | Op::InsertAllFail(_) | Op::RemoveAllFail(_) =>
-                if via == 2 { let mut m = &mut d; ds_mut(c, &mut m, op, r) } else { ds_mut(c, &mut d, op, r) },
+            Op::Insert(_) | Op::Remove(_) | Op::RemoveMatching(_) | Op::RetainMatching(_) | Op::InsertAll(_) | Op::RemoveAll(_) | Op::InsertAllFail(_) | Op::RemoveAllFail(_) => {
+                let dir = match op { Op::RemoveMatching(m) | Op::RetainMatching(m) if m.direct != 0 => d.direct_op(c, op, via), _ => None };
+                match dir { Some(o) => o, None => if via == 2 { let mut m = &mut d; ds_mut(c, &mut m, op, r) } else { ds_mut(c, &mut d, op, r) } }
+            }
             Op::Clone { keep_clone, poke } => {
                 let mut other = d.clone();
                 let same = ds_read(c, &other, &Op::All, r) == ds_read(c, &d, &Op::All, r);
@@ -692,13 +824,16 @@ where G: ProbeG, G::Error: std::fmt::Debug + std::error::Error, G::MutationError
         let o = match op {
             Op::Contains(_) | Op::Query(_) | Op::All | Op::Enum(_) => {
                 let sl = if via == 1 && r.chance(1, 2) { match op { Op::Query(m) => d.slice_query(c, m), Op::All => d.slice_all(c), _ => None } } else { None };
+                let sl = match (sl, op) { (None, Op::Query(m)) if m.direct != 0 => d.direct_op(c, op, via), (sl, _) => sl };
                 match sl {
                     Some(o) => o,
                     None => match via { 0 => gr_read(c, &d, op, r), 1 => gr_read(c, &&d, op, r), _ => { let m = &mut d; gr_read(c, &m, op, r) } },
                 }
             }
-            Op::Insert(_) | Op::Remove(_) | Op::RemoveMatching(_) | Op::RetainMatching(_) | Op::InsertAll(_) | Op::RemoveAll(_) | Op::InsertAllFail(_) | Op::RemoveAllFail(_) =>
-                if via == 2 { let mut m = &mut d; gr_mut(c, &mut m, op, r) } else { gr_mut(c, &mut d, op, r) },
+            Op::Insert(_) | Op::Remove(_) | Op::RemoveMatching(_) | Op::RetainMatching(_) | Op::InsertAll(_) | Op::RemoveAll(_) | Op::InsertAllFail(_) | Op::RemoveAllFail(_) => {
+                let dir = match op { Op::RemoveMatching(m) | Op::RetainMatching(m) if m.direct != 0 => d.direct_op(c, op, via), _ => None };
+                match dir { Some(o) => o, None => if via == 2 { let mut m = &mut d; gr_mut(c, &mut m, op, r) } else { gr_mut(c, &mut d, op, r) } }
+            }
             Op::Clone { keep_clone, poke } => {
                 let mut other = d.clone();
                 let same = gr_read(c, &other, &Op::All, r) == gr_read(c, &d, &Op::All, r);
@@ -909,11 +1044,11 @@ fn run_real(c: &Ctx, st: &Store, ops: &[Op], r: &mut Rng) -> Vec<Out> {
 const PREDS: [Tid; 4] = [3, 1, 2, 12];
 const GNS: [Tid; 4] = [12, 13, 4, 1];
 /// where the terms of generated quads come from (per case); `spread`/16 = chance of leaving the palette
-struct Palette { so: Vec<Tid>, p: Vec<Tid>, g: Vec<Option<Tid>>, spread: usize }
+struct Palette { so: Vec<Tid>, p: Vec<Tid>, g: Vec<Option<Tid>>, spread: usize, /** the store type has the direct hook */ direct_ok: bool }
 fn palette(r: &mut Rng, st: &Store) -> Palette {
     match st.small_m {
         // as c11's gen_tid / gen_t3 / gen_g
-        None => Palette { so: (1..=6).collect(), p: vec![3, 3, 1, 2, 12], g: vec![None, None, Some(12), Some(12), Some(4), Some(13), Some(1)], spread: 4 },
+        None => Palette { so: (1..=6).collect(), p: vec![3, 3, 1, 2, 12], g: vec![None, None, Some(12), Some(12), Some(4), Some(13), Some(1)], spread: 4, direct_ok: true },
         // capacity-limited: a palette of about M terms, so that about half of the histories overflow
         Some(m) => {
             let m = m as usize;
@@ -924,7 +1059,7 @@ fn palette(r: &mut Rng, st: &Store) -> Palette {
             let p: Vec<Tid> = pal.iter().filter(|x| PREDS.contains(x)).cloned().collect();
             let mut g = vec![None, None];
             g.extend(pal.iter().filter(|x| GNS.contains(x)).map(|x| Some(*x)));
-            Palette { so: pal, p, g, spread: *r.pick(&[0, 0, 1]) }
+            Palette { so: pal, p, g, spread: *r.pick(&[0, 0, 1]), direct_ok: false }
         }
     }
 }
@@ -942,7 +1077,9 @@ fn gen_qm_shape(c: &Ctx, r: &mut Rng, pal: &Palette, base: Q4, shape: usize, isg
     let p = if shape & 2 != 0 { gen_const_t(c, r, base.1) } else { free(c, r, &pal.p) };
     let o = if shape & 1 != 0 { gen_const_t(c, r, base.2) } else { free(c, r, &pal.so) };
     let g = if isgraph { no_g() } else if shape & 8 != 0 { gmatch(c, gen_const_g(c, r, base.3)) } else if r.chance(1, 3) { gmatch(c, (GMK::Any(Any), "Any".into())) } else { gmatch(c, gen_free_g(c, r, &pal.g, 0)) };
-    QM { s: tmatch(c, s), p: tmatch(c, p), o: tmatch(c, o), g }
+    let mut m = QM { s: tmatch(c, s), p: tmatch(c, p), o: tmatch(c, o), g, direct: 0 };
+    if pal.direct_ok { m.draw_direct(r, isgraph) }
+    m
 }
 fn gen_qm(c: &Ctx, r: &mut Rng, pal: &Palette, inserted: &[Q4], isgraph: bool) -> QM {
     let shape = r.below(16);
@@ -1014,7 +1151,7 @@ fn gen_directed(c: &Ctx, r: &mut Rng, idx: usize, all: &[Store]) -> (Store, Vec<
     let with_last = |q: &&Q4| q.0 == last || q.1 == last || q.2 == last || q.3 == Some(last);
     let qd = *stored.iter().filter(|q| q.3.is_none()).filter(with_last).next().unwrap();
     let qn = if isgraph { qd } else { let named: Vec<&Q4> = stored.iter().filter(|q| q.3.is_some()).collect(); **named.iter().find(|q| with_last(q)).unwrap_or(&named[0]) };
-    let pal = Palette { so: l.clone(), p: vec![l[1]], g: stored.iter().map(|q| q.3).collect(), spread: 0 };
+    let pal = Palette { so: l.clone(), p: vec![l[1]], g: stored.iter().map(|q| q.3).collect(), spread: 0, direct_ok: false };
     let mut gbound = 0;
     for shape in 0..(if isgraph { 8 } else { 16 }) {
         let base = if shape & 8 != 0 { gbound += 1; if gbound % 2 == 1 { qd } else { qn } } else if r.chance(1, 2) { qd } else { qn };
@@ -1034,6 +1171,77 @@ fn gen_directed(c: &Ctx, r: &mut Rng, idx: usize, all: &[Store]) -> (Store, Vec<
     ops.push(Op::Insert(qd));
     ops.push(Op::All);
     ops.push(Op::Enum(EK::Subjects));
+    (st, ops)
+}
+
+/// directed histories about ENUMERATION matchers (`[T; N]`, `&[T]` and their graph-name forms): lists with repeated terms,
+/// with one term under several spellings, with terms absent from the store, of length 0 to 4, in every position (alone or in
+/// several positions at once), handed to the store as the real sophia types (`direct`), in queries, pattern removals and
+/// pattern retentions, on every store type in turn
+fn shuffle<T>(r: &mut Rng, v: &mut [T]) { for i in (1..v.len()).rev() { let j = r.below(i + 1); v.swap(i, j) } }
+fn gen_enum_t(c: &Ctx, r: &mut Rng, must: Option<Tid>, cands: &[Tid]) -> (TMK, String) {
+    let n = *r.pick(&[2usize, 2, 2, 3, 3, 4, 0, 1]);
+    let mut ids: Vec<Tid> = vec![];
+    for k in 0..n {
+        let x = if k == 0 && must.is_some() && r.chance(5, 6) { must.unwrap() }
+            else if !ids.is_empty() && r.chance(1, 2) { *r.pick(&ids) } // a term listed more than once
+            else { pick_id(r, cands) };
+        ids.push(x);
+    }
+    shuffle(r, &mut ids);
+    if ids.len() == 2 && r.chance(1, 2) { (TMK::Arr2([c.term(ids[0], r), c.term(ids[1], r)]), format!("[{},{}]", ids[0], ids[1])) }
+    else if ids.len() == 3 && r.chance(1, 3) { (TMK::Arr3([c.term(ids[0], r), c.term(ids[1], r), c.term(ids[2], r)]), format!("[{},{},{}]", ids[0], ids[1], ids[2])) }
+    else { (TMK::Slice(leak(ids.iter().map(|i| c.term(*i, r)).collect())), format!("&{ids:?}[..]")) }
+}
+fn gen_enum_g(c: &Ctx, r: &mut Rng, must: Option<Option<Tid>>, cands: &[Option<Tid>]) -> (GMK, String) {
+    let n = *r.pick(&[2usize, 2, 2, 3, 3, 4, 0, 1]);
+    let mut ids: Vec<Option<Tid>> = vec![];
+    for k in 0..n {
+        let x = if k == 0 && must.is_some() && r.chance(5, 6) { must.unwrap() }
+            else if !ids.is_empty() && r.chance(1, 2) { *r.pick(&ids) }
+            else { pick_gid(r, cands) };
+        ids.push(x);
+    }
+    shuffle(r, &mut ids);
+    let txt = ids.iter().map(g_txt).collect::<Vec<_>>().join(",");
+    if ids.len() == 2 && r.chance(1, 2) { (GMK::Arr2([gname(c, r, ids[0]), gname(c, r, ids[1])]), format!("[{txt}]")) }
+    else { (GMK::Slice(leak(ids.iter().map(|i| gname(c, r, *i)).collect())), format!("&[{txt}][..]")) }
+}
+fn gen_directed_enum(c: &Ctx, r: &mut Rng, idx: usize, all: &[Store]) -> (Store, Vec<Op>) {
+    let k = idx / 10;
+    let hooked: Vec<&Store> = all.iter().filter(|s| s.small_m.is_none()).collect();
+    let st = if k % 3 == 2 { all[(k / 3) % all.len()].clone() } else { hooked[(k - k / 3) % hooked.len()].clone() };
+    let isgraph = st.isgraph;
+    let pal = palette(r, &st);
+    let mut inserted: Vec<Q4> = vec![];
+    let mut ops: Vec<Op> = vec![];
+    // a few subjects / objects / graph names shared by several quads, so that one listed term selects several quads
+    let n0 = r.range(4, 9);
+    let l: Vec<Q4> = (0..n0).map(|_| { let mut q = pal.quad(r, isgraph); if !inserted.is_empty() && r.chance(1, 3) { let b: Q4 = *r.pick(&inserted); match r.below(3) { 0 => q.0 = b.0, 1 => q.2 = b.2, _ => q.3 = b.3 } } inserted.push(q); q }).collect();
+    if r.chance(1, 3) { ops.push(Op::Collect { l, fail: false }) } else if r.chance(1, 2) { ops.push(Op::InsertAll(l)) } else { ops.extend(l.into_iter().map(Op::Insert)) }
+    let npos = if isgraph { 3 } else { 4 };
+    for round in 0..r.range(6, 12) {
+        let base = if r.chance(5, 6) { *r.pick(&inserted) } else { pal.quad(r, isgraph) };
+        let main = round % npos; // the position that gets an enumeration for sure
+        let mut t: Vec<(TMK, String)> = vec![];
+        for (pos, (id, cands)) in [(base.0, &pal.so), (base.1, &pal.p), (base.2, &pal.so)].into_iter().enumerate() {
+            t.push(if pos == main || r.chance(1, 4) { gen_enum_t(c, r, Some(id), cands) }
+                else { match r.below(6) { 0..=2 => (TMK::Any(Any), "Any".to_string()), 3 | 4 => gen_const_t(c, r, id), _ => gen_free_t(c, r, cands, 0) } });
+        }
+        let g = if isgraph { no_g() }
+            else if main == 3 || r.chance(1, 4) { gmatch(c, gen_enum_g(c, r, Some(base.3), &pal.g)) }
+            else { match r.below(6) { 0..=2 => gmatch(c, (GMK::Any(Any), "Any".into())), 3 | 4 => gmatch(c, gen_const_g(c, r, base.3)), _ => gmatch(c, gen_free_g(c, r, &pal.g, 0)) } };
+        let (o, p, s) = (t.pop().unwrap(), t.pop().unwrap(), t.pop().unwrap());
+        let mut m = QM { s: tmatch(c, s), p: tmatch(c, p), o: tmatch(c, o), g, direct: 0 };
+        if pal.direct_ok { m.direct = match r.below(8) { 0 => 0, 1..=3 if m.all_fam(isgraph) => 5, _ => 1 + main as u8 } }
+        match r.below(8) {
+            0 => { ops.push(Op::RemoveMatching(m)); ops.push(Op::All) }
+            1 => { ops.push(Op::RetainMatching(m)); ops.push(Op::All) }
+            _ => ops.push(Op::Query(m)),
+        }
+        if r.chance(1, 3) { let q = pal.quad(r, isgraph); inserted.push(q); ops.push(Op::Insert(q)) }
+    }
+    ops.push(Op::All);
     (st, ops)
 }
 
@@ -1242,7 +1450,9 @@ fn main() {
 clone, from_quad_source/from_triple_source/collect_quads/collect_triples (also from failing sources), insert_all/remove_all from failing sources, length of the term index, \
 with real sophia matchers of every shipped kind, described to Coq by constant()/extension over the 16-class pool) run on the real store from empty (new() or default()), each op \
 reaching the store directly, through &D / &mut D or (vectors) through the slice; every 10th case is a directed \
-term-index-boundary history on a capacity-limited store; every 20th case is a history of a SimpleTermIndex used directly (ensure_index/get_index/get_term/get_graph_name/\
+term-index-boundary history on a capacity-limited store; every 10th case is a directed enumeration-matcher history (arrays/slices with repeated, respelled, absent \
+terms in every position, on every store type in turn); in about 5 queries/pattern mutations of 8 one position (or every position) hands the real sophia matcher type to the store \
+instead of the harness enum; every 20th case is a history of a SimpleTermIndex used directly (ensure_index/get_index/get_term/get_graph_name/\
 get_graph_name_index/len/clone); non-trivial = at least one mutation that changed the store AND at least one non-empty query result (term-index cases: an index was assigned AND \
 a lookup succeeded); distinct = distinct printed case text (store, ops with matcher labels)".into();
     let mut cases: Vec<(usize, String)> = vec![];
@@ -1289,6 +1499,9 @@ a lookup succeeded); distinct = distinct printed case text (store, ops with matc
         let (st, ops) = if idx % 10 == 7 {
             sum.bump("kind:directed-boundary");
             gen_directed(&ctx, &mut r, idx, &all)
+        } else if idx % 10 == 5 {
+            sum.bump("kind:directed-enumeration");
+            gen_directed_enum(&ctx, &mut r, idx, &all)
         } else {
             sum.bump("kind:random");
             let st = if r.chance(1, 2) { all[*r.pick(&capped)].clone() } else { all[*r.pick(&uncapped)].clone() };
@@ -1345,6 +1558,20 @@ a lookup succeeded); distinct = distinct printed case text (store, ops with matc
                 for t in [&m.s, &m.p, &m.o] { sum.bump(&format!("tmatcher:{}", tmk_kind(&t.m))); }
                 if !st.isgraph { sum.bump(&format!("gmatcher:{}", gmk_kind(&m.g.m))); }
                 if matches!(x, Out::Quads(l) if !l.is_empty()) { sum.bump("query:non-empty") }
+                sum.bump(&format!("direct:{}", ["none", "s", "p", "o", "g", "all"][m.direct as usize]));
+                if m.direct != 0 {
+                    let mut real: Vec<&'static str> = vec![];
+                    if m.direct == 1 || m.direct == 5 { real.push(tmk_kind(&m.s.m)) }
+                    if m.direct == 2 || m.direct == 5 { real.push(tmk_kind(&m.p.m)) }
+                    if m.direct == 3 || m.direct == 5 { real.push(tmk_kind(&m.o.m)) }
+                    if !st.isgraph && (m.direct == 4 || m.direct == 5) { real.push(gmk_kind(&m.g.m)) }
+                    for k in real { sum.bump(&format!("direct-type:{k}")) }
+                }
+                // enumerations listing one term (class) more than once
+                let rep = |lab: &str| { let inner: Vec<&str> = lab.trim_start_matches('&').trim_end_matches("[..]").trim_matches(|ch| ch == '[' || ch == ']').split(',').map(|x| x.trim()).collect(); (1..inner.len()).any(|i| inner[..i].contains(&inner[i])) };
+                for (pos, (k, lab)) in [(tmk_kind(&m.s.m), &m.s.label), (tmk_kind(&m.p.m), &m.p.label), (tmk_kind(&m.o.m), &m.o.label)].into_iter().enumerate() {
+                    if matches!(k, "[T;2]" | "[T;3]" | "&[T]") && rep(lab) { sum.bump(&format!("enum-with-repeats:{}{}", ["s", "p", "o"][pos], if m.direct == pos as u8 + 1 || m.direct == 5 { ":direct" } else { "" })) }
+                }
             }
         }
         if sum.samples.len() < 3 { sum.samples.push(format!("case {idx}: {text} => {outs:?}")); }
